@@ -111,6 +111,16 @@ pub fn run(a: &Args) {
                             tr.emit(json!({"ev": "srcfault", "which": "shp", "k": k, "withIdx": with_idx, "random": random,
                                            "fired": s.faults_fired() > 0, "res": res}));
                             cases += 1;
+                            if s.fault_on_seek() {
+                                // the same failing seek, reported the way EINTR is
+                                let s = LogSource::new(f.shp.clone());
+                                s.set_fault(Some(k), false);
+                                s.set_interrupted(true);
+                                let res = traverse(&c, s.clone(), if with_idx { Some(LogSource::new(f.shx.clone())) } else { None }, t, random, n);
+                                tr.emit(json!({"ev": "srcfault", "which": "shp", "k": k, "withIdx": with_idx, "random": random,
+                                               "fired": s.faults_fired() > 0, "res": res, "interrupted": true}));
+                                cases += 1;
+                            }
                         }
                         if with_idx && !random {
                             for k in 0..nx + 1 {
